@@ -28,6 +28,7 @@ inductive FOp
   | got (r : Nat) (e : Int)   -- logged after get returned
   | back (r : Nat)            -- logged before back is called
   | sample (n : Nat)          -- pool.inUse()
+  | maxHeld (m : Nat)         -- most events held at once, counted by the harness itself
   | fin (inUse waiters : Nat) -- after every reader finished
   | wedged
   deriving DecidableEq, Repr
@@ -43,6 +44,7 @@ def APool.step? (p : APool) : FOp → Option APool
     then some { p with held := (r, e) :: p.held } else none
   | .back r => if p.held.any (·.1 == r) then some { p with held := p.held.filter (·.1 != r) } else none
   | .sample n => if n ≤ p.cap then some p else none
+  | .maxHeld m => if m ≤ p.cap then some p else none
   | .fin a w => if a = 0 ∧ w = 0 ∧ p.held.isEmpty then some p else none
   | .wedged => none
 
@@ -50,6 +52,7 @@ def FOp.render : FOp → String
   | .got r e => s!"g{r}.{e}"
   | .back r => s!"b{r}"
   | .sample n => s!"u{n}"
+  | .maxHeld m => s!"max {m}"
   | .fin a w => s!"end {a} {w}"
   | .wedged => "wedged"
 
